@@ -300,7 +300,7 @@ pub fn generate(ctx: &mut Ctx) {
     }
     // timestamps around daylight-saving transitions (both passes of the repeated hour) and in periods whose
     // zone offset has seconds
-    for (i, dt) in gen::dst_edge_datetimes().into_iter().chain(gen::lmt_datetimes()).enumerate() {
+    for (i, dt) in gen::dst_edge_datetimes().into_iter().chain(gen::lmt_datetimes()).chain(gen::leap_datetimes()).enumerate() {
         let vt = vx::show(&Value::DateTime(dt));
         ctx.case("w:dst", &format!("w {vt}"));
         ctx.case("r:dst", &format!("r {} {vt}", 9000 + i));
